@@ -8,7 +8,7 @@ the same judge that confirms solver counterexamples).  "Trusting only refutation
 
 Bound (stated in the evidence): synchronous functions without receiver state only; byte strings over a 20-symbol
 alphabet (the reserved bytes of the ASH specification, their escaped counterparts, four ordinary bytes), exhaustive
-up to length 3 and N_RANDOM random strings up to length 12; integers at the range ends and random inside; enums over
+up to length 3, eleven long strings (127 .. 1025 bytes) and random strings up to length 12; integers at the range ends and random inside; enums over
 their members; at most MAX_RUNS runs and 60 s per function and case.
 """
 from __future__ import annotations
@@ -51,6 +51,10 @@ def samples(ty, rng):
             for n in range(lo, min(hi, 3) + 1):
                 for tup in itertools.product(ALPHABET, repeat=n):
                     yield {"__bytes__": bytes(tup).hex(), "mutable": ty.mutable}
+                if n == 2 and ty.maxlen is None:
+                    # a few long strings around the sizes the link layer knows (data field 256, receive buffer 1024)
+                    for ln in (127, 128, 129, 200, 255, 256, 257, 300, 1023, 1024, 1025):
+                        yield {"__bytes__": bytes(rng.choice(ALPHABET) for _ in range(ln)).hex(), "mutable": ty.mutable}
             while True:
                 n = rng.randint(lo, hi)
                 yield {"__bytes__": bytes(rng.choice(ALPHABET) for _ in range(n)).hex(), "mutable": ty.mutable}
@@ -125,7 +129,7 @@ def search(con, case, only, seed=0, max_runs=MAX_RUNS, budget_s=60.0):
             continue
         if "error" in res:
             continue
-        bad = [(n, d) for n, ok, d in res["judgements"] if ok is False and (only is None or True)]
+        bad = [(n, d) for n, ok, d in res["judgements"] if ok is False and (only is None or n in only)]
         if bad:
             res["mode"] = (f"bounded native search of a function outside the verifier's reach (run {runs}, seed {seed}; "
                            "see pyvc/bounded.py for the bound); " + res.get("mode", ""))
